@@ -37,8 +37,9 @@ def NS.name : NS → String
 /-- What a hosted service is, as far as the controller can tell.
 `raw`: answers `queryretire` whenever it likes (op `qack`), possibly never;
 `nodeOk`/`nodeNo`/`nodeNoListener`: a NodeService whose ctrl.cmd entry answers at once
-with "ok" / something else / "no listener"; `dead`: configured but `GetService` is nil. -/
-inductive Kind | raw | nodeOk | nodeNo | nodeNoListener | dead
+with "ok" / something else / "no listener" / "" (a listener that does not know `queryretire`);
+`dead`: configured but `GetService` is nil when the node starts (it may become resolvable later). -/
+inductive Kind | raw | nodeOk | nodeNo | nodeNoListener | nodeEmpty | dead
   deriving DecidableEq, Repr
 
 def Kind.reachable : Kind → Bool
@@ -64,6 +65,7 @@ structure St where
   allSup : Bool           -- NodeCtrl.retireSupport
   stopPend : Nat          -- StopNode calls whose completion callback has not run yet
   stopMode : StopMode     -- the environment's StopNode regime, never changes
+  unres : List Nat        -- environment: hosted services for which `INodeApp.GetService` currently returns nil
   deriving DecidableEq, Repr
 
 inductive Cmd | stat | retire | exit | webNodes | webRetire | webExit | other
@@ -76,6 +78,7 @@ inductive Op
   | svcOther (i : Nat)            -- ctrl.servicecmd with any other command
   | stopDone (succ : Bool)        -- the INodeApp completes the oldest outstanding StopNode with `succ`
   | tick                          -- > 30 s pass: every outstanding request of the admin service times out
+  | setRes (i : Nat) (up : Bool)  -- environment: service i becomes resolvable (up) / unresolvable through GetService
   deriving DecidableEq, Repr
 
 inductive SCmd | queryretire | retire
@@ -97,18 +100,19 @@ def reachableAt (kinds : List Kind) (i : Nat) : Bool :=
   | none => false
 
 /-- `SendCmdToAllSelfServices` / `checkRetireSupport`: one `sendCmd` per hosted service, in
-configuration order; `sendCmd` sends nothing when `GetService` returns nil. -/
-def tellAll (c : SCmd) (kinds : List Kind) : List Evt :=
-  ((List.range kinds.length).filter (reachableAt kinds)).map (fun i => Evt.send i c)
+configuration order; `sendCmd` sends nothing when `GetService` returns nil (best effort: the
+caller is not told). -/
+def tellAll (c : SCmd) (n : Nat) (unres : List Nat) : List Evt :=
+  ((List.range n).filter (fun i => !unres.contains i)).map (fun i => Evt.send i c)
 
 /-- `checkAllRetireSupport` / `isAllServiceRetired`: every hosted service is in the set -/
 def covers (n : Nat) (l : List Nat) : Bool := (List.range n).all (fun i => l.contains i)
 
-/-- RetireCmd.Handle -/
+/-- RetireCmd.Handle: guards, `setState(Retiring)`, then the best-effort fan-out, reply "ok" -/
 def retireCmd (s : St) : St × List Evt :=
   if s.st ≠ .working ∧ s.st ≠ .retiring then (s, [.reply .refused])
   else if !s.allSup then (s, [.reply .refused])
-  else ({ s with st := .retiring }, [.pub .retiring] ++ tellAll .retire s.kinds ++ [.reply .ok])
+  else ({ s with st := .retiring }, [.pub .retiring] ++ tellAll .retire s.kinds.length s.unres ++ [.reply .ok])
 
 /-- ExitCmd.Handle: `setState(Exiting)`, then `StopNode(cb)`, then reply -/
 def exitCmd (s : St) : St × List Evt :=
@@ -123,7 +127,7 @@ def exitCmd (s : St) : St × List Evt :=
 def webRetireCmd (s : St) : St × List Evt :=
   if s.st ≠ .working ∧ s.st ≠ .retiring then (s, [.reply .refused])
   else if !s.allSup then (s, [.reply .refused])
-  else ({ s with st := .retiring }, [.pub .retiring] ++ tellAll .retire s.kinds ++ [.reply .ok])
+  else ({ s with st := .retiring }, [.pub .retiring] ++ tellAll .retire s.kinds.length s.unres ++ [.reply .ok])
 
 /-- WebCmdExit.Handle (a textual duplicate of ExitCmd.Handle) -/
 def webExitCmd (s : St) : St × List Evt :=
@@ -172,6 +176,7 @@ def step (fixed : Bool) (s : St) : Op → St × List Evt
   | .svcOther _ => (s, [.reply .ok])
   | .stopDone succ => stopDone s succ
   | .tick => ({ s with qpend := [] }, [])
+  | .setRes i up => ({ s with unres := if up then s.unres.filter (· != i) else i :: s.unres }, [])
 
 def run (fixed : Bool) (s : St) : List Op → St × List Evt
   | [] => (s, [])
@@ -185,7 +190,8 @@ def run (fixed : Bool) (s : St) : List Op → St × List Evt
 /-- the controller right after the probe `checkRetireSupport` sent its queries -/
 def start (kinds : List Kind) (mode : StopMode := .later) : St :=
   { st := .working, kinds := kinds, qpend := (List.range kinds.length).filter (reachableAt kinds),
-    support := [], retired := [], allSup := false, stopPend := 0, stopMode := mode }
+    support := [], retired := [], allSup := false, stopPend := 0, stopMode := mode,
+    unres := (List.range kinds.length).filter (fun i => !reachableAt kinds i) }
 
 /-- the NodeService kinds answer the probe at once (inside the same quiescent period), in
 index order; these answers are ordinary `qack` operations at the head of the history -/
@@ -196,6 +202,7 @@ def autoAcks : Nat → List Kind → List Op
      | .nodeOk => [Op.qack i true]
      | .nodeNo => [Op.qack i false]
      | .nodeNoListener => [Op.qack i false]
+     | .nodeEmpty => [Op.qack i false]
      | _ => []) ++ autoAcks (i + 1) rest
 
 /-- everything that happened to the node since the probe: the immediate answers, then `ops` -/
@@ -204,7 +211,7 @@ def history (kinds : List Kind) (ops : List Op) : List Op := autoAcks 0 kinds ++
 /-- a whole case: `Start`, the probe, then the history -/
 def exec (fixed : Bool) (kinds : List Kind) (ops : List Op) (mode : StopMode := .later) : St × List Evt :=
   let r := run fixed (start kinds mode) (history kinds ops)
-  (r.1, tellAll .queryretire kinds ++ r.2)
+  (r.1, tellAll .queryretire kinds.length (start kinds mode).unres ++ r.2)
 
 /-- state and events after `Start` and the retire-support probe (what the driver starts from) -/
 def boot (fixed : Bool) (kinds : List Kind) (mode : StopMode := .later) : St × List Evt :=
